@@ -526,6 +526,13 @@ func (sc *SpecScope) call(x *ast.CallExpr) Val {
 		}
 		return vBool(c.frameFormula(sc.old, sc.cur, sc.old.alloc, nil))
 	}
+	if sym, ok := sc.ghostOverride[name]; ok {
+		var as []string
+		for i := range x.Args {
+			as = append(as, sc.intOf(x.Args[i]))
+		}
+		return vInt(sx(sym, as...))
+	}
 	if c.spec != nil && !sc.pure {
 		for _, g := range c.spec.GhostFns {
 			if g.Name == name {
@@ -665,13 +672,6 @@ func (c *FnCtx) useSpecFunc(sf *SpecFunc) (sym, retSort string) {
 	}
 	body := sc.eval(sf.Body)
 	if sf.Opaque && len(params) > 0 {
-		c.declared[sym] = false
-		c.declare(sym, sorts, retSort)
-		var names []string
-		for _, p := range params {
-			names = append(names, strings.Fields(strings.Trim(p, "()"))[0])
-		}
-		app := sx(sym, names...)
 		revealed := c.spec != nil && c.spec.IsLemma
 		if c.spec != nil {
 			for _, r := range c.spec.Reveal {
@@ -680,9 +680,17 @@ func (c *FnCtx) useSpecFunc(sf *SpecFunc) (sym, retSort string) {
 				}
 			}
 		}
+		c.declared[sym] = false
+		c.declare(sym, sorts, retSort)
 		if revealed {
+			var names []string
+			for _, p := range params {
+				names = append(names, strings.Fields(strings.Trim(p, "()"))[0])
+			}
+			app := sx(sym, names...)
 			c.emit(fmt.Sprintf("(assert (forall (%s) (! (= %s %s) :pattern (%s))))", strings.Join(params, " "), app, body.S, app))
 		}
+		// not revealed: uninterpreted here; facts come from lemmas instantiated with `use`
 		return
 	}
 	if len(params) == 0 {
